@@ -77,6 +77,8 @@ pub struct Plan {
     pub agent_jitter_per_mille: u64,
     /// Fault injection: from this mutating store call on, the store refuses (and keeps nothing).
     pub store_fails_from: Option<usize>,
+    /// The store read (restoration of a lane at registration) with this index fails once.
+    pub store_read_fails_at: Option<usize>,
 }
 
 pub const KEYS: [&str; 4] = ["k0", "k1", "k2", "k3"];
@@ -283,6 +285,7 @@ pub fn plan(rng: &mut Rng, focus: Focus, lanes: &[LaneSpec], incarnation: u32, m
         jitter_per_mille: *rng.pick(&[0u64, 0, 100, 300]),
         agent_jitter_per_mille: *rng.pick(&[0u64, 0, 100, 300]),
         store_fails_from: if rng.chance(1, 10) { Some(rng.usize_below(16)) } else { None },
+        store_read_fails_at: if rng.chance(1, 8) { Some(rng.usize_below(4)) } else { None },
     }
 }
 
@@ -323,5 +326,6 @@ pub fn probe_plan(rng: &mut Rng, focus: Focus, lanes: &[LaneSpec], incarnation: 
         jitter_per_mille: 0,
         agent_jitter_per_mille: 0,
         store_fails_from: None,
+        store_read_fails_at: None,
     }
 }
